@@ -25,9 +25,9 @@ Proof.
 Qed.
 
 (* a configuration that passes the decidable check IS the property's configuration *)
-Lemma cfg_good_eq c : cfg_goodb c = true -> c = std_cfg.
+Lemma cfg_eqb_std c : cfg_eqb c std_cfg = true -> c = std_cfg.
 Proof.
-  unfold cfg_goodb, cfg_eqb. intros H.
+  unfold cfg_eqb. intros H.
   repeat match type of H with (_ && _ = true) => apply andb_prop in H; destruct H as [H ?] end.
   destruct c as [a b d sf vs st la dv sh]. cbn [sep_from sep_to split_ch suffixes values star matcher default_verdict shape] in *.
   apply N.eqb_eq in H. subst a.
@@ -44,8 +44,13 @@ Proof.
     apply andb_prop in E as [E1 E2]. apply seqb_eq in E1. apply Bool.eqb_prop in E2. congruence. }
   subst sf vs.
   match goal with Hm : matcher_eqb ?m _ = true |- _ => destruct m; try discriminate Hm end.
-  destruct sh; [reflexivity|discriminate].
+  destruct sh; [reflexivity|discriminate|discriminate].
 Qed.
+
+(* a configuration that passes the decidable check is the property's configuration up to the way the loop lets
+   the last matching rule decide *)
+Lemma cfg_good_canon c : cfg_goodb c = true -> canon c = std_cfg.
+Proof. apply cfg_eqb_std. Qed.
 
 (* ------------------------------------------------------------------ the decision loop *)
 Lemma last_match_wins_gen d la st rs c t :
@@ -57,6 +62,25 @@ Proof.
   rewrite fold_left_app, rev_app_distr. cbn [fold_left rev app find].
   destruct (rule_matches la st r c t); [reflexivity|apply IH].
 Qed.
+
+(* walking the list from its end and leaving at the first hit = the forward loop with override *)
+Lemma decide_canon sh d la st rs c t : decide sh d la st rs c t = decide (canon_shape sh) d la st rs c t.
+Proof. destruct sh; [reflexivity|reflexivity|]. symmetry. apply last_match_wins_gen. Qed.
+Lemma filter_rules_canon cfg rs c t : filter_rules cfg rs c t = filter_rules (canon cfg) rs c t.
+Proof. unfold filter_rules. cbn [canon shape default_verdict matcher star]. apply decide_canon. Qed.
+Lemma parse_line_canon cfg l : parse_line cfg l = parse_line (canon cfg) l.
+Proof. reflexivity. Qed.
+Lemma parse_lines_canon cfg ls : parse_lines cfg ls = parse_lines (canon cfg) ls.
+Proof. reflexivity. Qed.
+Lemma parse_rules_canon cfg s : parse_rules cfg s = parse_rules (canon cfg) s.
+Proof. reflexivity. Qed.
+Lemma category_filter_canon cfg rules c t : category_filter cfg rules c t = category_filter (canon cfg) rules c t.
+Proof. unfold category_filter. rewrite filter_rules_canon. reflexivity. Qed.
+(* bring a goal about a good configuration to the property's configuration *)
+Ltac to_std cfg good :=
+  rewrite ?(filter_rules_canon cfg), ?(category_filter_canon cfg), ?(parse_rules_canon cfg), ?(parse_line_canon cfg);
+  change (matcher cfg) with (matcher (canon cfg)); change (star cfg) with (star (canon cfg));
+  rewrite (cfg_good_canon cfg good).
 
 Lemma decide_snoc d la st rs r c t :
   decide LastWins d la st (rs ++ [r]) c t =
@@ -452,7 +476,7 @@ Proof.
 Qed.
 
 Lemma model_is_spec c rules cat t : cfg_goodb c = true -> category_filter c rules cat t = spec_verdict rules cat t.
-Proof. intros H. rewrite (cfg_good_eq c H). apply model_is_spec_std. Qed.
+Proof. intros H. to_std c H. apply model_is_spec_std. Qed.
 
 Lemma oracle_holds c rules cat t : cfg_goodb c = true -> prop_c15_b rules cat t (category_filter c rules cat t) = true.
 Proof. intros H. unfold prop_c15_b. rewrite (model_is_spec c _ _ _ H). apply Bool.eqb_reflx. Qed.
@@ -629,18 +653,18 @@ Section Good.
   Hypothesis good : cfg_goodb cfg = true.
 
   Lemma good_parse_rules s : parse_rules cfg s = spec_rules s.
-  Proof. rewrite (cfg_good_eq cfg good). apply parse_rules_spec. Qed.
+  Proof. to_std cfg good. apply parse_rules_spec. Qed.
 
   Lemma good_last_match_wins rs c t :
     filter_rules cfg rs c t =
     match find (fun r => rule_matches (matcher cfg) (star cfg) r c t) (rev rs) with
     | Some r => enabled r | None => true end.
-  Proof. rewrite (cfg_good_eq cfg good). unfold filter_rules. cbn [shape default_verdict matcher star std_cfg]. apply last_match_wins_gen. Qed.
+  Proof. to_std cfg good. unfold filter_rules. cbn [shape default_verdict matcher star std_cfg]. apply last_match_wins_gen. Qed.
 
   Lemma good_rule_matches r c t :
     rule_matches (matcher cfg) (star cfg) r c t = glob 42 (pat r) c && concerns t r.
   Proof.
-    rewrite (cfg_good_eq cfg good). unfold rule_matches, pattern_matches. cbn [matcher star std_cfg].
+    to_std cfg good. unfold rule_matches, pattern_matches. cbn [matcher star std_cfg].
     rewrite iter_match_glob. reflexivity.
   Qed.
 
@@ -659,16 +683,16 @@ Section Good.
   Lemma good_later_rule_overrides rs r c t :
     filter_rules cfg (rs ++ [r]) c t =
     if rule_matches (matcher cfg) (star cfg) r c t then enabled r else filter_rules cfg rs c t.
-  Proof. rewrite (cfg_good_eq cfg good). unfold filter_rules. cbn [shape default_verdict matcher star std_cfg]. apply decide_snoc. Qed.
+  Proof. to_std cfg good. unfold filter_rules. cbn [shape default_verdict matcher star std_cfg]. apply decide_snoc. Qed.
 
   Lemma good_no_match_passes rs c t :
     (forall r, In r rs -> rule_matches (matcher cfg) (star cfg) r c t = false) -> filter_rules cfg rs c t = true.
-  Proof. rewrite (cfg_good_eq cfg good). unfold filter_rules. cbn [shape default_verdict matcher star std_cfg]. apply decide_none. Qed.
+  Proof. to_std cfg good. unfold filter_rules. cbn [shape default_verdict matcher star std_cfg]. apply decide_none. Qed.
 
   Lemma good_typed_other_type rs1 r rs2 c t t' :
     rtype r = Some t' -> t' <> t -> filter_rules cfg (rs1 ++ r :: rs2) c t = filter_rules cfg (rs1 ++ rs2) c t.
   Proof.
-    intros H Hne. unfold filter_rules. rewrite (cfg_good_eq cfg good). cbn [shape default_verdict matcher star std_cfg].
+    intros H Hne. to_std cfg good. unfold filter_rules. cbn [shape default_verdict matcher star std_cfg].
     apply decide_skip. eapply typed_other_no_match; eassumption.
   Qed.
 
@@ -679,7 +703,7 @@ Section Good.
   Qed.
 
   Lemma good_only_concerned rs c t : filter_rules cfg rs c t = filter_rules cfg (filter (concerns t) rs) c t.
-  Proof. unfold filter_rules. rewrite (cfg_good_eq cfg good). cbn [shape default_verdict matcher star std_cfg]. apply decide_only_concerned. Qed.
+  Proof. to_std cfg good. unfold filter_rules. cbn [shape default_verdict matcher star std_cfg]. apply decide_only_concerned. Qed.
 
   Lemma good_fatal_untyped_only rules c :
     category_filter cfg rules c Fatal = filter_rules cfg (filter untyped (parse_rules cfg rules)) c Fatal.
@@ -700,7 +724,7 @@ Section Good.
     parse_rules cfg (a ++ c1 :: bad ++ c2 :: b) = parse_rules cfg a ++ parse_rules cfg b.
   Proof.
     intros H1 H2 Hb Hp. rewrite !good_parse_rules. apply malformed_ignored_text; try assumption.
-    rewrite <- (cfg_good_eq cfg good). exact Hp.
+    rewrite <- (cfg_good_canon cfg good), <- parse_line_canon. exact Hp.
   Qed.
 End Good.
 
@@ -940,7 +964,18 @@ Proof.
   - intros H. destruct (parse_line std_cfg l) as [r|] eqn:E; [|reflexivity]. exfalso. exact (H r (parse_line_sound _ _ E)).
 Qed.
 
+(* the grammar reads the suffix and value alternatives only *)
+Lemma LineOK_canon cfg l r : LineOK cfg l r <-> LineOK (canon cfg) l r.
+Proof. split; intros H; destruct H; econstructor; eassumption. Qed.
+
 Lemma good_line_grammar cfg : cfg_goodb cfg = true -> forall l r, parse_line cfg l = Some r <-> LineOK cfg l r.
-Proof. intros H. rewrite (cfg_good_eq cfg H). exact parse_line_iff. Qed.
+Proof.
+  intros H l r. rewrite (LineOK_canon cfg l r), parse_line_canon, (cfg_good_canon cfg H). apply parse_line_iff.
+Qed.
 Lemma good_rejects_iff cfg : cfg_goodb cfg = true -> forall l, parse_line cfg l = None <-> forall r, ~ LineOK cfg l r.
-Proof. intros H. rewrite (cfg_good_eq cfg H). exact parse_line_rejects_iff. Qed.
+Proof.
+  intros H l. rewrite parse_line_canon. split.
+  - intros Hn r Hr. apply LineOK_canon in Hr. revert r Hr. rewrite (cfg_good_canon cfg H) in *. apply parse_line_rejects_iff, Hn.
+  - intros Hn. rewrite (cfg_good_canon cfg H). apply parse_line_rejects_iff. intros r Hr.
+    apply (Hn r). apply LineOK_canon. rewrite (cfg_good_canon cfg H). exact Hr.
+Qed.
